@@ -284,6 +284,16 @@ def run_check(pid, tier, seed, replay, t0, debug=False):
     if proof_ok:
         assumptions = print_assumptions(pid, mod.THEOREMS)
 
+    coqchk = None
+    if tier == "thorough" and proof_ok and not replay:
+        rc, out = sh(f"timeout 1500 coqchk -Q {COQ}/theories NIR NIR.Props.{pid} -o -silent", 1600)
+        if rc != 0:
+            broken.append(f"coqchk (independent checker) rejected Props/{pid}.vo: {out[-300:]}")
+            coqchk = "rejected"
+        else:
+            m = re.search(r"\* Axioms:(.*?)\* Constants", out, flags=re.S)
+            coqchk = " ".join(m.group(1).split()) if m else "ok"
+
     # 3. cases
     if replay:
         rep = json.load(open(replay))
@@ -422,6 +432,7 @@ def run_check(pid, tier, seed, replay, t0, debug=False):
                 "hand-written Gallina model coq/theories/Model/*.v, tied to /repo by the correspondence run below",
             ] + list(getattr(mod, "TRUSTED", [])),
             "theorems": {k: (v if v == "closed" else v) for k, v in assumptions.items()},
+            "coqchk_axioms": coqchk,
             "obligation_names": ob_names,
             "evaluations": len(cases),
             "distinct_nontrivial": len(sigs),
